@@ -189,24 +189,40 @@ Definition ex_bad : state := step H_exec (init_state [(Base, Md5)]) (OAdd 0 [66]
 Example ex_inv_discriminates : ~ Inv H_exec ex_bad.
 Proof.
   intros HI.
-  pose proof (HI O {| s_cls := Base; s_alg := Md5;
-                      s_objs := [(H_exec Md5 [65], {| o_bytes := [66]; o_mode := mode_rw; o_ino := 1 |})] |}
-                 (H_exec Md5 [65]) {| o_bytes := [66]; o_mode := mode_rw; o_ino := 1 |}) as Hx.
+  remember (H_exec Md5 [65]) as k eqn:Ek.
   assert (E : ex_bad = {| st_stores := [{| s_cls := Base; s_alg := Md5;
-                      s_objs := [(H_exec Md5 [65], {| o_bytes := [66]; o_mode := mode_rw; o_ino := 1 |})] |}];
-                          st_next := 2 |}) by (vm_compute; reflexivity).
-  rewrite E in Hx. destruct Hx as [Hn _]; [reflexivity|simpl; now rewrite list_N_eqb_refl|].
-  unfold named_ok in Hn. rewrite H_exec_not_dir in Hn. vm_compute in Hn. discriminate Hn.
+                      s_objs := [(k, {| o_bytes := [66]; o_mode := mode_rw; o_ino := 1 |})] |}];
+                          st_next := 2 |}) by (subst k; vm_compute; reflexivity).
+  rewrite E in HI.
+  destruct (HI O _ k {| o_bytes := [66]; o_mode := mode_rw; o_ino := 1 |} eq_refl) as [Hn _].
+  - cbn [alookup s_objs]. rewrite list_N_eqb_refl. reflexivity.
+  - unfold named_ok in Hn. cbn [o_bytes s_alg] in Hn. subst k.
+    rewrite H_exec_not_dir in Hn. vm_compute in Hn. discriminate Hn.
 Qed.
 
-(* and the mode clause is not trivially true either: a local store with an unprotected object *)
+(* and the mode clause is not trivially true either: a local store with an unprotected object
+   (the name does not matter for this clause) *)
 Example ex_mode_discriminates :
   ~ Inv H_exec {| st_stores := [{| s_cls := Local; s_alg := Md5;
-                    s_objs := [(H_exec Md5 [65], {| o_bytes := [65]; o_mode := mode_rw; o_ino := 1 |})] |}];
+                    s_objs := [([97], {| o_bytes := [65]; o_mode := mode_rw; o_ino := 1 |})] |}];
                   st_next := 2 |}.
 Proof.
   intros HI.
-  destruct (HI O _ (H_exec Md5 [65]) {| o_bytes := [65]; o_mode := mode_rw; o_ino := 1 |} eq_refl) as [_ Hm].
-  - simpl. now rewrite list_N_eqb_refl.
-  - specialize (Hm eq_refl). discriminate Hm.
+  destruct (HI O _ [97] {| o_bytes := [65]; o_mode := mode_rw; o_ino := 1 |} eq_refl eq_refl) as [_ Hm].
+  specialize (Hm eq_refl). discriminate Hm.
+Qed.
+
+(* WfOp is needed: directory staging on a sha256 store (build()'s legacy external-output path,
+   _build_external_tree_info) files the listing under its md5 name in the sha256 store and then
+   fails; the faithful model does the same (and the harness's malformed stream shows the real code
+   agreeing byte for byte).  It is outside the property's quantifier (DESIGN section 6, C01, "not
+   covered"); wf_op_b rejects the operation. *)
+Definition ex_sha_dir : list op := [OStage 0 (WDir [(k_a, [65])])].
+Example ex_sha_dir_not_wf : wf_hist_b H_exec (init_state [(Local, Sha256)]) ex_sha_dir = false.
+Proof. vm_compute. reflexivity. Qed.
+Theorem C01_wfop_needed :
+  exists cfg ops, Inv H_exec (init_state cfg) /\ ~ Inv H_exec (run H_exec (init_state cfg) ops).
+Proof.
+  exists [(Local, Sha256)], ex_sha_dir. split; [apply C01_init|].
+  apply viol_b_sound. vm_compute. reflexivity.
 Qed.
